@@ -330,20 +330,68 @@ class SourceFile:
                     i = j + 1
         return
 
-    def find(self, container, name, occurrence=0):
+    def find_span(self, container, name, occurrence=0):
         c = "-" if container.strip() == "-" else norm_header(container)
         nm = norm_header(name) if name.startswith("impl") else " ".join(name.split())
-        hits = [(s, e) for (cc, nn, s, e, h) in self.items if cc == c and nn == nm]
+        hits = [(s, e, h) for (cc, nn, s, e, h) in self.items if cc == c and nn == nm]
         if len(hits) <= occurrence:
             return None
-        s, e = hits[occurrence]
-        return self.toks[s:e]
+        return hits[occurrence]
+
+    def find(self, container, name, occurrence=0):
+        sp = self.find_span(container, name, occurrence)
+        if sp is None:
+            return None
+        return self.toks[sp[0]:sp[1]]
+
+    def with_provided(self, container, name, occurrence, provided, get_source):
+        """D32: the tokens of an `impl Trait for T` item in which every listed provided trait method that the impl does not
+        define itself is written out with the trait's provided body (what the compiler uses for this implementor), placed
+        where the trait declares it relative to the methods the impl does define.  Returns (tokens, [materialised fn names])."""
+        sp = self.find_span(container, name, occurrence)
+        if sp is None:
+            return None, []
+        s, e, hdr = sp
+        inner = sorted([(st, en, nn) for (cc, nn, st, en, h) in self.items if cc == hdr and s <= st and en <= e and nn.startswith("fn ")])
+        have = set(nn for (_, _, nn) in inner)
+        inserts = []   # (token position, tokens)
+        done = []
+        for (rel, trait, fname) in provided:
+            if "fn " + fname in have:
+                continue
+            tsf = get_source(rel)
+            tsp = tsf.find_span("-", trait)
+            if tsp is None:
+                raise AssemblyError("lost anchor: %s not found in %s (provided-method rule D32)" % (trait, rel))
+            ts, te, thdr = tsp
+            tfns = sorted([(st, en, nn) for (cc, nn, st, en, h) in tsf.items if cc == thdr and ts <= st and en <= te and nn.startswith("fn ")])
+            order = [nn for (_, _, nn) in tfns]
+            if "fn " + fname not in order:
+                raise AssemblyError("lost anchor: fn %s not found in %s of %s (provided-method rule D32)" % (fname, trait, rel))
+            k = order.index("fn " + fname)
+            body = tsf.toks[tfns[k][0]:tfns[k][1]]
+            if body[-1].text != "}":
+                raise AssemblyError("the impl `%s` lacks `fn %s` and %s declares no provided body for it" % (name, fname, trait))
+            later = set(order[k + 1:])
+            pos = e - 1
+            for (st, en, nn) in inner:
+                if nn in later:
+                    pos = st; break
+            inserts.append((pos, body)); done.append(fname)
+        toks = []
+        cur = s
+        for (pos, body) in sorted(inserts, key=lambda x: x[0]):
+            toks += self.toks[cur:pos] + body
+            cur = pos
+        toks += self.toks[cur:e]
+        return toks, done
 
 # --------------------------------------------------------------------------- fragment parsing
 
 class Item:
-    def __init__(self, relpath, container, name, props, occurrence, subst=()):
+    def __init__(self, relpath, container, name, props, occurrence, subst=(), provided=()):
         self.relpath, self.container, self.name, self.props, self.occurrence, self.subst = relpath, container, name, props, occurrence, tuple(subst)
+        self.provided = tuple(provided)   # D32: (relpath, trait name, fn name) of provided trait methods to materialise when the impl lacks them
         self.exec = []        # exec tokens (Tok; for R-originals region=(rs,re,rule))
         self.span = None      # (start,end) char span of item body in fragment text
         self.rewrites = []    # (rule, orig_text)
@@ -367,14 +415,18 @@ def parse_fragment(text, fname):
             if head[0] == "item":
                 if cur is not None:
                     raise AssemblyError("%s: nested //@ item at offset %d" % (fname, t.start))
-                props, occ, subst = None, 0, []
+                props, occ, subst, provided = None, 0, [], []
                 for p in parts[3:]:
+                    if p.startswith("provided="):
+                        for spec_ in p[9:].split(","):
+                            rel_, tr_, fn_ = [x.strip() for x in spec_.split(":")]
+                            provided.append((rel_, tr_, fn_))
                     if p.startswith("props="): props = p[6:].split(",")
                     if p.startswith("occ="): occ = int(p[4:])
                     if p.startswith("subst="):
                         for kv in p[6:].split(","):
                             k_, v_ = kv.split(":", 1); subst.append((k_.strip(), v_.strip()))
-                cur = Item(head[1].strip(), parts[1], parts[2], props, occ, subst)
+                cur = Item(head[1].strip(), parts[1], parts[2], props, occ, subst, provided)
                 cur.span = [t.end, None]
             elif head[0] == "end":
                 if cur is None:
@@ -426,6 +478,10 @@ def trusted_bodies(text):
     while i + 6 < n:
         if (toks[i].text == "#" and toks[i+1].text == "[" and toks[i+2].text == "verifier" and toks[i+3].text == "::"
                 and toks[i+4].text == "external_body" and toks[i+5].text == "]"):
+            # a trusted trait-impl method whose SAME body is proved elsewhere under a precondition (D17 twin, marked by a
+            # `D17-twin:` comment right above the attribute) may change: the twin receives the same change and is verified
+            if "D17-twin:" in text[max(0, toks[i].start - 400):toks[i].start].rsplit("}", 1)[-1]:
+                i += 6; continue
             j = i + 6
             # skip further attributes / qualifiers up to `fn`; stop at struct/enum/trait/impl (external_body on a type is not a function)
             while j < n and toks[j].text not in ("fn", "struct", "enum", "trait", "impl", "type"):
@@ -456,7 +512,17 @@ def assemble_fragment(text, fname, repo, stats, srcs):
                 raise AssemblyError("lost anchor: file %s missing" % it.relpath)
             srcs[(it.relpath, it.subst)] = SourceFile(p, it.subst)
         sf = srcs[(it.relpath, it.subst)]
-        stoks = sf.find(it.container, it.name, it.occurrence)
+        if it.provided:
+            def get_source(rel, _subst=it.subst):
+                if (rel, ()) not in srcs:
+                    srcs[(rel, ())] = SourceFile(os.path.join(repo, rel), ())
+                return srcs[(rel, ())]
+            stoks, mat = sf.with_provided(it.container, it.name, it.occurrence, it.provided, get_source)
+            if mat:
+                stats.setdefault("provided_methods_materialised", [])
+                stats["provided_methods_materialised"] += ["%s::%s" % (it.name, f_) for f_ in mat]
+        else:
+            stoks = sf.find(it.container, it.name, it.occurrence)
         if stoks is None:
             raise AssemblyError("lost anchor: %s | %s | %s not found in %s" % (it.relpath, it.container, it.name, it.relpath))
         a = normalise(it.exec, stats)
@@ -629,7 +695,10 @@ def audit_fragment(gen_text, fname, repo, srcs, stats=None):
     n = 0
     for it in items:
         sf = srcs[(it.relpath, it.subst)]
-        stoks = sf.find(it.container, it.name, it.occurrence)
+        if it.provided:
+            stoks, _ = sf.with_provided(it.container, it.name, it.occurrence, it.provided, lambda rel: srcs[(rel, ())])
+        else:
+            stoks = sf.find(it.container, it.name, it.occurrence)
         if it.name.startswith(("struct ", "enum ")):
             fa, ra = derive_set(it.exec), derive_set(stoks)
             if fa - ra - DERIVES_NOT_CARRIED:
